@@ -702,9 +702,12 @@ class SmtDagPrinter(DagWalker):
         self.write(args[0])
         self.write(")")
 
-        for i, k in enumerate(args[1::2]):
+        # The arguments of an array value are ordered by object id: we
+        # print them in the (deterministic) order used by SmtPrinter
+        keys = formula.args()[1::2]
+        for i in sorted(range(len(keys)), key=lambda j: str(keys[j])):
             self.write(" ")
-            self.write(k)
+            self.write(args[2*i + 1])
             self.write(" ")
             self.write(args[2*i + 2])
             self.write(")")
